@@ -7,6 +7,9 @@ PROFILE = dict(named_cols=0.4, partial_args=0.3, inclusion=0.3, assign=0.7, list
                disjunction=0.35, filter=0.45, negation=0.0, two_rules=0.35, distinct=0.0, aggregation=0.0,
                ifthenelse=0.5, builtins=0.4, func_calls=0.5, set_agg=0.0)
 
+# programs for the elimination tie: more unifications, chains of assignments, calls (inlined as tables)
+ELIM_PROFILE = dict(PROFILE, inclusion=0.0, lists=0.0, records=0.0, assign=0.9, filter=0.6, func_calls=0.5, builtins=0.3)
+
 
 def run(tier, replay=None):
   rep = common.Report(PID, tier, 'other')
@@ -18,5 +21,30 @@ def run(tier, replay=None):
   ok, info = proof.proof_stage(rep, PID, extra_trusted=['props/coregen.py (AST -> Logica text and AST -> Coq term printers)',
                                                        'props/corecheck.py, Core/Check.v (bag comparison)'])
   variants = [('plain', lambda prog, r: G.p_program(prog))]
-  K.run_core(rep, PID, tier, PROFILE, variants, 220, 6000, 'c01', replay=replay, ok=ok, info=info)
+  found = K.run_core(rep, PID, tier, PROFILE, variants, 220, 6000, 'c01', replay=replay, ok=ok, info=info)
+  # --- tie of the elimination model (Core/Elim.v) to RuleStructure.ElliminateInternalVariables
+  if ok and not replay:
+    import random
+    from props import elimtie, c19
+    n = 120 if tier == 'quick' else 3000
+    texts = []
+    for i in range(n):
+      s = 'c01-elim/%d/%d' % (common.seed(), i)
+      prog = K.gen_program(s, ELIM_PROFILE)
+      texts.append(G.p_program(prog))
+      if i % 3 == 0 and c19.derived(prog):   # malformed stream: rules that must be rejected
+        for fn in (c19.c_head_unbound, c19.c_cmp_unbound):
+          c = fn(prog, random.Random(s))
+          if c:
+            texts.append(c['text'])
+    tie = elimtie.run_tie(texts)
+    rep.coverage['elimination_tie'] = {k: v for k, v in tie.items() if k != 'mismatches'}
+    rep.coverage['elimination_tie']['mismatching_rules'] = [t for t, _ in tie['mismatches'][:5]]
+    rep.coverage['traces_validated_against_impl'] = tie['exact'] + tie['both_reject']
+    if (tie['mismatches'] or tie['error']) and not found:
+      rep.violation('tie-elimination', {
+          'broken': 'correspondence Core/Elim.v eliminate vs rule_translate.RuleStructure.ElliminateInternalVariables + '
+                    'UnificationsToConstraints (theorem C01_variable_elimination_sound is about the model)',
+          'rules': [t for t, _ in tie['mismatches'][:5]], 'codes': [c for _, c in tie['mismatches'][:5]],
+          'error': tie['error']}, no_input=True)
   return rep.finish()
